@@ -26,7 +26,7 @@
 (* conservation) in every state, that every generated base is Valid, and   *)
 (* that every single corruption is refused by the rule set.                *)
 (***************************************************************************)
-EXTENDS Integers, Sequences, FiniteSets, TLC
+EXTENDS Integers, Sequences, FiniteSets, SequencesExt, TLC
 
 CONSTANTS
   MaxIn, MaxOut, MaxKern,   \* shape bounds of the transaction part
@@ -58,11 +58,10 @@ NrdVersion     == 4       \* first header version that may carry NRD kernels (HF
 Kinds == {"plain", "hl", "nrd", "cb"}
 
 \* ---- arithmetic helpers
-RECURSIVE SeqSum(_)
-SeqSum(s) == IF s = <<>> THEN 0 ELSE Head(s) + SeqSum(Tail(s))
+SeqSum(s) == FoldLeft(LAMBDA acc, e : acc + e, 0, s)
 Map(s, F(_)) == [i \in 1..Len(s) |-> F(s[i])]
 Filter(s, P(_)) == SelectSeq(s, P)
-Sum(s, F(_)) == SeqSum(Map(s, F))
+Sum(s, F(_)) == FoldLeft(LAMBDA acc, e : acc + F(e), 0, s)
 
 V(c) == c.v
 R(c) == c.r
@@ -144,8 +143,17 @@ FirstFailing(b, c) ==
       bad == {i \in 1..Len(rs) : ~rs[i][2]}
   IN  IF bad = {} THEN "none" ELSE rs[CHOOSE i \in bad : \A j \in bad : i <= j][1]
 
-TxValid(b, c)        == \A i \in 1..Len(TxRules(b, c)) : TxRules(b, c)[i][2]
-BlockBodyValid(b, c) == \A i \in 1..Len(BlockRules(b, c)) : BlockRules(b, c)[i][2]
+TxValid(b, c) ==
+  /\ RuleNoCoinbaseOutputs(b) /\ RuleNoCoinbaseKernels(b)
+  /\ RuleWeight(b, MaxTxWeight) /\ RuleNoNrdDuplicates(b, c) /\ RuleUnique(b) /\ RuleCutThrough(b)
+  /\ RuleRangeProofs(b) /\ RuleSignatures(b)
+  /\ RuleKernelSums(b, Fee(b), b.off)
+BlockBodyValid(b, c) ==
+  /\ RuleWeight(b, MaxBlockWeight) /\ RuleNoNrdDuplicates(b, c) /\ RuleUnique(b) /\ RuleCutThrough(b)
+  /\ RuleRangeProofs(b) /\ RuleSignatures(b)
+  /\ RuleLockHeights(b, c) /\ RuleNrdVersion(b, c)
+  /\ RuleCoinbase(b)
+  /\ RuleKernelSums(b, 0 - Reward, BlockOffset(c))
 Valid(b, c) == IF c.as = "tx" THEN TxValid(b, c) ELSE BlockBodyValid(b, c)
 
 \* ---- the property (definition of conservation; no reference to the rules above)
@@ -196,13 +204,15 @@ Groups ==
      ELSE (g.nk = 0 <=> g.ni = 0) /\ (g.ni = 0 => g.no = 0)}
 
 \* values, kernel kinds and fees of the transaction part; balanced by construction
+NonDecSeqs(n) == {s \in [1..n -> Vals] : NonDec(s)}
+KernelConfigs(n) ==
+  {kf \in [kinds : [1..n -> TxKinds], fees : [1..n -> Fees]] :
+     /\ \A i \in 1..(n - 1) : KindIx(kf.kinds[i]) <= KindIx(kf.kinds[i + 1])
+     /\ \A i \in 1..(n - 1) : kf.kinds[i] = kf.kinds[i + 1] => kf.fees[i] <= kf.fees[i + 1]}
 ValueChoices(g) ==
-  {w \in [vin : [1..g.ni -> Vals], vout : [1..g.no -> Vals],
-          kinds : [1..g.nk -> TxKinds], fees : [1..g.nk -> Fees]] :
-     /\ NonDec(w.vin) /\ NonDec(w.vout)
-     /\ \A i \in 1..(g.nk - 1) : KindIx(w.kinds[i]) <= KindIx(w.kinds[i + 1])
-     /\ \A i \in 1..(g.nk - 1) : w.kinds[i] = w.kinds[i + 1] => w.fees[i] <= w.fees[i + 1]
-     /\ SeqSum(w.vin) = SeqSum(w.vout) + SeqSum(w.fees)}
+  {[vin |-> t[1], vout |-> t[2], kinds |-> t[3].kinds, fees |-> t[3].fees] :
+     t \in {u \in NonDecSeqs(g.ni) \X NonDecSeqs(g.no) \X KernelConfigs(g.nk) :
+              SeqSum(u[1]) = SeqSum(u[2]) + SeqSum(u[3].fees)}}
 
 MkKernel(kind, fee, x, sid) ==
   [kind |-> kind, fee |-> fee, lock |-> IF kind = "hl" THEN Height ELSE 0,
@@ -248,7 +258,6 @@ Bases(g, w) ==
 \* Single-field corruptions.  Each yields [cls, body, ctx].
 
 SetAt(s, i, e) == [s EXCEPT ![i] = e]
-RemoveAt(s, i) == SubSeq(s, 1, i - 1) \o SubSeq(s, i + 1, Len(s))
 Idx(s) == 1..Len(s)
 NewSid(b) == 50 + Len(b.kerns)
 C(cls, b, c) == [cls |-> cls, body |-> b, ctx |-> c]
@@ -379,6 +388,8 @@ BasesAreValid == (HasBody /\ applied = <<>>) => Valid(body, ctx)
 SingleCorruptionRefused == (HasBody /\ Len(applied) = 1 /\ applied[1] \in AlwaysRefused) => ~Valid(body, ctx)
 \* Definitions agree the other way round on what the generator produces (sanity of NoValueCreated):
 \* a body that conserves value and is refused is refused by a structural rule, not by the sums.
+\* The ordered rule tables (used to name the first failing stage) and the conjunctions agree.
+TablesAgree == HasBody => (Valid(body, ctx) <=> FirstFailing(body, ctx) = "none")
 RefusedConservingIsStructural ==
   (HasBody /\ NoValueCreated(body, ctx) /\ ~Valid(body, ctx)) =>
      FirstFailing(body, ctx) \notin {"kernel_sums", "verify_coinbase", "range_proofs", "signatures"}
